@@ -41,6 +41,11 @@ Definition fe_bounds (n nt : Z) : list (Z * Z) :=
    runs on the calling thread before tasks.wait() *)
 Definition fe_who (wait : bool) (nt i : Z) : who := if wait && (i =? nt - 1) then CallerPre else Task i.
 
+(* Which functor a chunk applies: c_state of a for_each call is the VERSION of the caller's functor it uses.
+   Version 0 = the value of `f` at the time for_each_n was called.  Every scheduled closure captures `f` BY VALUE
+   ([s, e, f] in both for_each_n_schedule overloads) when scheduleBulk invokes the generator, i.e. before for_each_n
+   returns; with wait=false the caller may modify or destroy its functor object afterwards (versions 1, 2, ...)
+   while the chunks are still queued, and no chunk may observe that.  So every call of the plan has c_state = 0. *)
 Definition fe_calls (wait : bool) (nt : Z) (b : list (Z * Z)) : list call :=
   map (fun x : nat * (Z * Z) => let '(i, (lo, hi)) := x in CALL (fe_who wait nt (Z.of_nat i)) 0 0 lo hi)
       (combine (seq 0 (length b)) b).
